@@ -330,4 +330,18 @@ Section Tables.
     - split; [now apply usn_part_plain | now apply udn_from_usn_plain].
     - split; [now apply usn_part_typed | now apply udn_from_usn_typed].
   Qed.
+
+  Lemma starts_with_self_app u r : starts_with u (u ++ r) = true.
+  Proof. induction u as [|c u IH]; [reflexivity|]. cbn. now rewrite N.eqb_refl, IH. Qed.
+
+  Lemma wf_usn_full m : msg_wf m ->
+    exists d, In d devs /\ describes root d (m_type m) = true /\ usn_udn_part (m_usn m) = d_udn d /\
+              udn_from_usn (m_usn m) = Some (d_udn d) /\ starts_with (d_udn d) (m_usn m) = true.
+  Proof.
+    intros [_ [_ [d [Hd [D [U Husn]]]]]]. exists d. split; [exact Hd|]. split; [exact D|].
+    destruct Husn as [->|[t [_ ->]]].
+    - split; [now apply usn_part_plain|]. split; [now apply udn_from_usn_plain|].
+      rewrite <- (app_nil_r (d_udn d)) at 2. apply starts_with_self_app.
+    - split; [now apply usn_part_typed|]. split; [now apply udn_from_usn_typed | apply starts_with_self_app].
+  Qed.
 End Tables.
